@@ -58,6 +58,18 @@ def gen(tier, seed):
                 for x in resumes:
                     for y in (("step",), ("continue",)):
                         specs.append(("halt-in-subroutine", feat, src, [], ([("stepinto", k)] if k else []) + [x, y]))
+    # a HALT written with other reserved bits (TRAP words xF125, xF825, xFF25 - the machine looks at the low byte only): every
+    # part of the debugger must agree that it is a HALT, or the run loop waits for a pause that never comes
+    for word in ("xF125", "xF225", "xF425", "xF825", "xFF25"):
+        plain = f"        add r0 r0 #1\n        .fill {word}\n        add r0 r0 #1\n"
+        insub = f"main    jsr fn\n        halt\nfn      add r0 r0 #1\n        .fill {word}\n        ret\n"
+        incall = f"main    call fn\n        halt\nfn      add r0 r0 #1\n        .fill {word}\n        rets\n"
+        for src, feats in ((plain, (0, 1)), (insub, (0, 1)), (incall, (1,))):
+            for feat in feats:
+                for k in range(0, 4):
+                    for x in resumes:
+                        for y in (("step",), ("continue",), ("stepout",)):
+                            specs.append(("halt-with-reserved-bits", feat, src, [], ([("stepinto", k)] if k else []) + [x, y]))
     return rnd, specs
 
 
@@ -92,7 +104,7 @@ def correspondence(ctx, violations, known_hits):
     return dbgcommon.coverage(r,
         "programs that jump to xFFFF, below the origin, to xFE00 and above, or park on HALT x EXHAUSTIVE sequences (length 2, thorough 3) "
         "of resuming commands {continue, step, step into 1/5/100, step out} issued at those PCs, followed by end of input, under both "
-        "feature settings; subroutines that end the program themselves (HALT before the return) with every resuming command at every point before it; goto from a parked state; random scripts on all program families ended by end of input; for every session "
+        "feature settings; HALT words with other reserved bits set (xF125 .. xFF25) in line, in a JSR and in a CALL subroutine; subroutines that end the program themselves (HALT before the return) with every resuming command at every point before it; goto from a parked state; random scripts on all program families ended by end of input; for every session "
         "the implementation's loop iterations are checked against the proved bound (executed + commands read + 1) and a session that "
         "hits the iteration cap where the model terminates is a violation", profiles,
         bound_checked=stats["bound_checked"], max_slack=stats["max_slack"], budget_hits=stats["budget_hits"],
